@@ -39,6 +39,13 @@ def gen_case(rng, tier, idx):
         c = gen_deep_cancel_history(rng, tier)
         c["drive"] = "direct"
         return c
+    if idx % 8 == 4:
+        # orders leave only by expiry (several of one side in one clock step), then a sweep over two or more levels
+        from ..direct import gen_expiry_history
+
+        c = gen_expiry_history(rng, tier)
+        c["drive"] = "direct"
+        return c
     if idx % 16 == 3:
         from ..direct import gen_both_sides_market_history
 
